@@ -20,14 +20,17 @@ func vpHash(b []byte) uint64 {
 }
 
 // vpHasher replaces murmur3.New64WithSeed symbolically.
-type vpHasher struct{ buf []byte }
+type vpHasher struct {
+	buf  []byte
+	seed uint32 // the seed the hasher was created with (Reset keeps it, as murmur3's does)
+}
 
 func (h *vpHasher) Write(p []byte) (int, error) { h.buf = append(h.buf, p...); return len(p), nil }
 func (h *vpHasher) Sum(b []byte) []byte           { vpUnsupported("Sum"); return nil }
 func (h *vpHasher) Reset()                        { h.buf = nil }
 func (h *vpHasher) Size() int                     { return 8 }
 func (h *vpHasher) BlockSize() int                { return 1 }
-func (h *vpHasher) Sum64() uint64                 { return vpH(h.buf) }
+func (h *vpHasher) Sum64() uint64                 { return vpHS(h.seed, h.buf) }
 
 // vpPlain (set by VP_C17_Long): for sequences of tens of thousands of concrete
 // bases the hash is, symbolically, one fixed mixing function instead of an
@@ -45,14 +48,26 @@ func vpMix(b []byte) uint64 {
 	return h ^ h>>29
 }
 
+// vpH is the hash of a k-mer under the package's current Seed: natively the
+// real murmur3; symbolically the uninterpreted function applied to the four
+// seed bytes followed by the k-mer (a hasher created under another seed is a
+// different function).
 func vpH(b []byte) uint64 {
-	if vpPlain && vpSymbolic() {
-		return vpMix(b)
+	if vpSymbolic() {
+		return vpHS(Seed, b)
 	}
 	return vpHash(b)
 }
 
-func vpNewHash64(seed uint32) hash.Hash64 { return &vpHasher{} }
+func vpHS(seed uint32, b []byte) uint64 {
+	key := append([]byte{byte(seed >> 24), byte(seed >> 16), byte(seed >> 8), byte(seed)}, b...)
+	if vpPlain {
+		return vpMix(key)
+	}
+	return vpHash(key)
+}
+
+func vpNewHash64(seed uint32) hash.Hash64 { return &vpHasher{seed: seed} }
 
 func vpDNA(name string, n int) []byte {
 	s := vpBytes(name, n)
@@ -111,7 +126,7 @@ func vpBottom(n, k int, seqs [][]byte) []uint64 {
 					break
 				}
 			}
-			h := vpHash(pick)
+			h := vpH(pick)
 			dup := false
 			for _, x := range hs {
 				dup = dup || x == h
@@ -160,6 +175,14 @@ func VP_C17_Sketch() {
 			li = vpCaseOr("len2", L) // later sequences may be shorter or longer than the first
 		}
 		seqs = append(seqs, vpDNA("s"+vpDigit(i), li))
+	}
+	if vpCaseOr("reseed", 0) == 1 {
+		// the package's Seed changes between calls: sketches are made with
+		// the seed current at the time of the call
+		defer func(old uint32) { Seed = old }(Seed)
+		Seed = 7
+		Sequences(n, k, seqs...)
+		Seed = 99
 	}
 	want := vpBottom(n, k, seqs)
 	got := Sequences(n, k, seqs...).View()
